@@ -282,7 +282,8 @@ def climb_type_tree(var_stack, curr_scope: Scope, obj_tree: dict):
     if var_obj is None:
         return None
     # Search for type, then next variable in stack and so on
-    for _ in range(30):
+    # One step per part of the chain: the length of the chain is the only bound
+    for _ in range(len(var_stack)):
         # Find variable type object
         type_obj = var_obj.get_type_obj(obj_tree)
         # Return if not found
@@ -299,5 +300,5 @@ def climb_type_tree(var_stack, curr_scope: Scope, obj_tree: dict):
         if var_obj is None:
             return None
     else:
-        raise KeyError
+        return None
     return type_obj
